@@ -9,6 +9,7 @@ Property theorems only; helper lemmas are in `Lemmas/TeXString.lean`, the model 
 import PybtexModel.Lemmas.TeXString
 import PybtexModel.Lemmas.TeXStringU
 import PybtexModel.Lemmas.TeXSplit
+import PybtexModel.Lemmas.TeXSplitFirst
 import PybtexModel.Model.Width
 
 namespace Pybtex.Props
@@ -139,7 +140,8 @@ theorem C12_len_braces_nonvacuous :
     (∀ c ∈ "a{b{c}}}d{".toList, c ≠ '\\') ∧ maxDepth 0 "a{b{c}}}d{".toList ≤ maxLevel ∧
       bibtexLen "a{b{c}}}d{".toList = some 4 := ⟨by simp, by decide, by decide⟩
 
-/-- a closed special character `{\…}` at depth 0 counts exactly once, whatever its body -/
+/-- a closed special character `{\…}` AT THE HEAD of the string (followed by an arbitrary rest `r`)
+counts exactly once, whatever its balanced body; other positions: `C12_len_spec` -/
 theorem C12_len_special (body r : Str) (hb : balanced body = true) (hm : maxDepth 1 body ≤ maxLevel) :
     bibtexLen (['{', '\\'] ++ body ++ ['}'] ++ r) = (bibtexLen r).map (1 + ·) := by
   rw [bibtexLen_eq, bibtexLen_eq, scan_special body r hb hm]
@@ -178,7 +180,8 @@ theorem C12_prefix_len_nonvacuous :
     bibtexPrefix ex1 4 = some "ab{\\'e x}{c}".toList ∧ bibtexLen ex1 = some 7 ∧
       bibtexLen "ab{\\'e x}{c}".toList = some 4 := by decide
 
-/-- nothing for a count ≤ 0 -/
+/-- [model wiring] nothing for a count ≤ 0: the first test of `bibtexPrefix` (model of the repaired
+code, fix fd32373) restated; the code is tied to it by the correspondence check -/
 theorem C12_prefix_nonpos (s : Str) (n : Int) (hn : n ≤ 0) : bibtexPrefix s n = some [] := by
   simp [bibtexPrefix, hn]
 
@@ -482,8 +485,10 @@ theorem C12_case_idem_unicode_nonvacuous :
       changeCaseG uniOps "École: Été".toList .t = some "École: Été".toList := by
   decide +kernel
 
-/-- the domain of the case-changing model: the letters whose case mapping changes the length and
-the capital sigma are outside (there the model keeps the length, the code does not: ß ↦ SS) -/
+/-- [model wiring] the domain of the case-changing model evaluated on literals: a plain string is
+inside; `Straße`, İ, ŉ, ǰ, ﬁ and the capital sigma are outside (there the model keeps the length,
+the code does not: ß ↦ SS); the sizes of the two regenerated tables.  That EVERY letter of the two
+tables is outside is the definition of `caseDomainC`, not a consequence of this theorem. -/
 theorem C12_case_domain :
     caseDomain "Strasse {\\ss} éıſ".toList = true ∧ caseDomain "Straße".toList = false ∧
       caseDomain [Char.ofNat 0x130] = false ∧ caseDomain [Char.ofNat 0x149] = false ∧
@@ -551,8 +556,11 @@ theorem C12_change_case_mode_nonvacuous :
 /-! ### splitting: strip, every input, maximality -/
 
 /-- what the call sites get: the unstripped pieces, each stripped of the white space at its two
-ends (nothing else is removed: `p = l ++ strip p ++ r` with `l`, `r` white space), and — for the
-default separator only — the empty ones dropped; `split_name_list` strips and keeps empties -/
+ends, and — for the default separator only — the empty ones dropped; `split_name_list` strips and
+keeps empties.  Conjuncts 1–2 are [model wiring] (the definition of `splitTex` / `splitNameList`
+unfolded, `rfl`): a bridge from the theorems about `splitTexRaw` to the call sites.  The proved
+content is conjunct 3: `strip` removes nothing but white space at the two ends
+(`p = l ++ strip p ++ r` with `l`, `r` white space). -/
 theorem C12_split_strip (sep : Sep) (s : Str) :
     splitTex sep s = (if sep = .space then ((splitTexRaw sep s).map strip).filter (· ≠ [])
                       else (splitTexRaw sep s).map strip) ∧
@@ -612,8 +620,9 @@ theorem C12_split_top_nonvacuous :
 
 /-- MAXIMALITY, every string: no part contains a match of the separator at brace level 0 (level as
 in `C12_split_top`; for the default separator a match is a white-space character or a tie that
-does not follow a backslash).  With `C12_split_top` / `C12_split_drops_seps` this pins the
-parts down: they are cut at EVERY brace-level-0 separator and nowhere else. -/
+does not follow a backslash).  With `C12_split_top` / `C12_split_drops_seps`: no splitter that
+leaves a brace-level-0 separator inside a part qualifies.  This does NOT yet determine the parts
+(`a and and b`, `a\ b`: `C12_split_leftmost_nonvacuous`); `C12_split_leftmost` does. -/
 theorem C12_split_maximal (sep : Sep) (s : Str) :
     ∀ p ∈ splitTexRaw sep s, ¬ HasTopSep
       (match sep with
@@ -639,8 +648,10 @@ theorem C12_split_maximal_nonvacuous :
 
 /-- The two halves together (this closes the loophole that `SplitsTo.one` alone leaves: a splitter
 that never splits satisfies `C12_split_drops_seps` but not this): for every non-empty string the
-pieces are exactly a decomposition of the input into parts WITHOUT a top-level separator match,
-separated by top-level separator matches. -/
+pieces are A decomposition of the input into parts WITHOUT a top-level separator match, separated
+by top-level separator matches.  Such a decomposition need not be unique (overlapping ` and and `,
+a backslash before a blank, a run of blanks cut in the middle); THE decomposition is the
+leftmost-match one of `C12_split_leftmost`. -/
 theorem C12_split_characterised (sep : Sep) (s : Str) (hs : s ≠ []) :
     SplitsTop
       (match sep with
@@ -662,6 +673,80 @@ theorem C12_split_characterised_nonvacuous :
     SplitsTo isSpaceSep "a b".toList ["a b".toList] ∧ HasTopSep spaceMatchAfter "a b".toList ∧
       splitTexRaw .space "a b".toList = ["a".toList, "b".toList] :=
   ⟨SplitsTo.one _, ⟨"a".toList, [' '], "b".toList, by decide, by decide, by decide⟩, by decide +kernel⟩
+
+/-- LEFTMOST MATCH, every non-empty string — this pins the parts down.  The pieces are THE
+first-match decomposition (`Spec.SplitsFirst`, written without the matcher of the model): the
+input is the parts in order with one COMPLETE separator match between consecutive parts (for the
+default separator the whole greedy run: it begins a match and cannot be continued); each of these
+matches lies at brace level 0 (level as in `C12_split_top`) and is the FIRST one after the previous
+cut — no match begins at a brace-level-0 position inside the part before it, not even one reaching
+beyond that part — and no match begins at level 0 in the last part.  And this decomposition is
+unique: any list of parts with these properties IS the result.  (What `re.split` does with the
+text between two brace groups; that the hand-written matchers follow `re` is checked by the
+correspondence.) -/
+theorem C12_split_leftmost (sep : Sep) (s : Str) (hs : s ≠ []) :
+    SplitsFirst
+      (match sep with
+        | .space => spaceBeginsAfter
+        | .comma => commaBeginsAfter
+        | .hyphen => hyphenBeginsAfter
+        | .and => andBeginsAfter)
+      (match sep with
+        | .space => spaceFullMatch
+        | .comma => commaFullMatch
+        | .hyphen => hyphenFullMatch
+        | .and => andFullMatch) s (splitTexRaw sep s) ∧
+    ∀ L : List Str, SplitsFirst
+      (match sep with
+        | .space => spaceBeginsAfter
+        | .comma => commaBeginsAfter
+        | .hyphen => hyphenBeginsAfter
+        | .and => andBeginsAfter)
+      (match sep with
+        | .space => spaceFullMatch
+        | .comma => commaFullMatch
+        | .hyphen => hyphenFullMatch
+        | .and => andFullMatch) s L → L = splitTexRaw sep s := by
+  have h := splitTexRaw_splitsFirst sep s hs
+  have hu : ∀ L : List Str, SplitsFirst (beginsOf sep) (fullOf sep) s L → L = splitTexRaw sep s :=
+    fun L hL => splitsFirst_unique sep hL h
+  cases sep <;> exact ⟨h, hu⟩
+
+/-- the two strings on which `C12_split_characterised` leaves a choice: `a and and b` — the other
+candidate `a and | b` also consists of parts without a top-level separator, separated by a
+top-level separator, but it is not the first-match decomposition; `a\ b` — the backslash belongs
+to the separator (`\ ` is a unit of the pattern), the candidate `a\ | b` is rejected -/
+theorem C12_split_leftmost_nonvacuous :
+    splitTexRaw .and "a and and b".toList = ["a".toList, "and b".toList] ∧
+      (SplitsTop isAndSep "a and and b".toList ["a and".toList, "b".toList] ∧
+        ∀ p ∈ ["a and".toList, "b".toList], ¬ HasTopSep andMatchAfter p) ∧
+      ¬ SplitsFirst andBeginsAfter andFullMatch "a and and b".toList ["a and".toList, "b".toList] ∧
+      splitTexRaw .space "a\\ b".toList = ["a".toList, "b".toList] ∧
+      ¬ SplitsFirst spaceBeginsAfter spaceFullMatch "a\\ b".toList ["a\\".toList, "b".toList] ∧
+      splitTexRaw .space "a \\ ~\tb".toList = ["a".toList, "b".toList] ∧
+      ¬ SplitsFirst spaceBeginsAfter spaceFullMatch "a \\ ~\tb".toList ["a".toList, [], "b".toList] := by
+  have e1 : splitTexRaw .and "a and and b".toList = ["a".toList, "and b".toList] := by decide +kernel
+  have e2 : splitTexRaw .space "a\\ b".toList = ["a".toList, "b".toList] := by decide +kernel
+  have e3 : splitTexRaw .space "a \\ ~\tb".toList = ["a".toList, "b".toList] := by decide +kernel
+  refine ⟨e1, ⟨?_, ?_⟩, ?_, e2, ?_, e3, ?_⟩
+  · exact SplitsTop.cons "a and".toList " and ".toList "b".toList _ (by decide) (by decide) (SplitsTop.one _)
+  · intro p hp
+    have hfree : topFree .and p = true := by
+      simp only [List.mem_cons, List.not_mem_nil, or_false] at hp
+      rcases hp with rfl | rfl <;> decide +kernel
+    exact not_hasTopSep_of_topFree .and p hfree
+  · intro h
+    have := (C12_split_leftmost .and "a and and b".toList (by decide)).2 _ h
+    rw [e1] at this
+    revert this; decide
+  · intro h
+    have := (C12_split_leftmost .space "a\\ b".toList (by decide)).2 _ h
+    rw [e2] at this
+    revert this; decide
+  · intro h
+    have := (C12_split_leftmost .space "a \\ ~\tb".toList (by decide)).2 _ h
+    rw [e3] at this
+    revert this; decide
 
 /-- the same for the stripped parts the call sites get -/
 theorem C12_split_maximal_stripped (sep : Sep) (s : Str) :
@@ -742,8 +827,10 @@ theorem C12_first_letter_plain_nonvacuous :
     (∀ c ∈ "12 d'Aviano".toList, c ≠ '{' ∧ c ≠ '}' ∧ c ≠ '\\') ∧
       bibtexFirstLetterG uniOps "12 d'Aviano".toList = some "d".toList := ⟨by simp, by decide +kernel⟩
 
-/-- `bibtex_abbreviate`: the first letters of the top-level hyphen pieces (stripped), those without
-a letter skipped, in order, joined with the delimiter (default `.-`) -/
+/-- [model wiring] `bibtex_abbreviate`, success direction only: the first letters of the top-level
+hyphen pieces (stripped), those without a letter skipped, in order, joined with the delimiter
+(default `.-`).  The statement unfolds `bibtexAbbreviateG` (`mapM` as `Forall₂`); the last conjunct
+is a tautology.  What the pieces and the letters are: `C12_split_leftmost`, `C12_first_letter_spec`. -/
 theorem C12_abbreviate_spec (o : CharOps) (s r : Str) (delim : Option Str)
     (h : bibtexAbbreviateG o s delim = some r) :
     ∃ letters : List Str,
